@@ -78,6 +78,8 @@ for (kind, d) in items:
     prop = d.split("-")[0]
     if per is None:
         stale += 1; print("STALE  %s/%s (patch no longer applies)" % (kind, d)); continue
+    if any("load failed" in k for k in per.get("all", [])):
+        stale += 1; print("STALE  %s/%s (applies, but no longer compiles on HEAD: it collides with a later fix: commit)" % (kind, d)); continue
     if kind == "seeded":
         own = [k for k in per.get(prop, []) if not k.startswith("!")]
         others = sorted(p for p in per if p != prop and any(not k.startswith("!") for k in per[p]))
